@@ -273,7 +273,6 @@ def judge(case, cols, exp, mask, rows):
     ci = fmt == 4
     names_got = [n.lower() if ci else n for n, _ in cols]
     names_want = [n for n, _ in exp]
-    nsel = None if mask is None else int(mask.sum())
     if names_got != names_want:
         if sorted(names_got) == sorted(names_want) and fmt == 3 and names_got == sorted(names_want):
             # HDF5 files come back in name order: known finding, but the values must still be right
